@@ -146,6 +146,14 @@ def run(ck):
                     {"A": [{"n": {"f": a}}, {"n": {"f": b}}], "condition": "A"}):
             big_cases.append({"k": "rule", "id": ck.new_id(), "rule": rule_text(det),
                               "docs": [D({"f": "x"}), D({"f": "foo"}), D({"g": "x"}), D({"n": {"f": "y"}}), D({})], "sw": [0, 2, 3, 7, 15]})
+    # the same for needles (D39, repaired): two needles of 4.2 MB each load as plain searches, shake merges
+    # them into one automaton that aho-corasick refuses
+    base = "".join(chr(c) for c in range(0x23, 0x7f) if chr(c) not in "*?'\"\\") + "".join(chr(c) for c in range(0xa1, 0x100))
+    half = (base * (4_200_100 // len(base.encode("utf-8")) + 1))
+    for det in ({"A": [{"f": "*" + half + "*"}, {"f": "*" + half[1:] + "x*"}], "condition": "A"},       # no common prefix: the trie does not share states
+                {"A": {"f": "*" + half + "*"}, "B": {"f": half[2:] + "y*"}, "C": {"g": "x"}, "condition": "A or B or C"}):
+        big_cases.append({"k": "rule", "id": ck.new_id(), "rule": rule_text(det),
+                          "docs": [D({"f": "x"}), D({"g": "x"}), D({})], "sw": [0, 3, 15]})
     bout = lib.run_harness_only(big_cases, "C03big")
     for c in big_cases:
         evals += 1
@@ -155,11 +163,13 @@ def run(ck):
             continue
         base = r["res"].get(0, "")
         for sw in (2, 3, 7, 15):
+            if sw not in c["sw"]:
+                continue
             res = r["res"].get(sw, "")
             if res == "x" or "p" in res or [i for i, (p, q) in enumerate(zip(base, res)) if (p == "t") != (q == "t")]:
                 if len(direct_failed) < 4:
                     ck.violation({"property": "C03", "kind": "direct",
-                                  "what": "optimise() or matches() panics (or the verdict changes) when shake merges regexes whose set exceeds the regex crate's size limit",
+                                  "what": "optimise() or matches() panics (or the verdict changes) when shake merges regexes / needles whose set / automaton exceeds the size limit of the regex / aho-corasick crate",
                                   "rule": c["rule"][:300], "switch_set": sw, "unoptimised": base, "optimised": res,
                                   "replay_case": dict(c, sw=[0, sw])})
                 direct_failed.add(c["id"])
